@@ -54,7 +54,9 @@ def dump_mir(crate='elvis-core', features=None, shim=None):
         if features:
             cmd += ['--features', features]
         cmd += ['--', '-Zunpretty=mir', '-C', 'debug-assertions=off', '-C', 'overflow-checks=on']
-        p = subprocess.run(cmd, cwd=build_dir, env=env, capture_output=True, text=True)
+        from .native import target_lock
+        with target_lock('mir-target'):
+            p = subprocess.run(cmd, cwd=build_dir, env=env, capture_output=True, text=True)
         if p.returncode != 0 or len(p.stdout) < 1000:
             raise RuntimeError('MIR dump failed:\n' + p.stderr[-3000:])
         tmp = out + f'.tmp{os.getpid()}'
